@@ -40,6 +40,12 @@ Proof.
   destruct (f a), (g a); simpl; try exact IH. reflexivity.
 Qed.
 
+Lemma forallb_ext_in_local {A} (f g : A -> bool) l : (forall a, In a l -> f a = g a) -> forallb f l = forallb g l.
+Proof.
+  induction l as [|a t IH]; intros H; simpl; [reflexivity|]. rewrite (H a (or_introl eq_refl)).
+  rewrite IH by (intros b Hb; apply H; right; exact Hb). reflexivity.
+Qed.
+
 Section CompletedMach.
   Variable I : instance.
   Variable fs : list fname.
@@ -109,7 +115,7 @@ Section CompletedMach.
     { intros Ht. rewrite (Hr Ht). apply vec_eq_map_seq.
       - rewrite length_fold_addat. unfold remm_cf. rewrite map_length, seq_length. reflexivity.
       - intros mm Hmm. rewrite fold_addat_nodup.
-        + unfold remm_cf. rewrite nthZ_map_seq by exact Hmm. fold ms.
+        + unfold remm_cf. rewrite nthZ_map_seq by exact Hmm. unfold d'.
           rewrite (cnt_unsched_step d r x mm Hi E). reflexivity.
         + apply dedup_nodup.
         + intros a Ha. unfold remm_cf. rewrite map_length, seq_length. apply Hms. exact Ha. }
@@ -130,7 +136,46 @@ Section CompletedMach.
         destruct (cnt_unsched d' mm =? 0)%nat eqn:E0.
         * apply Nat.eqb_eq in E0. rewrite E0. reflexivity.
         * apply Nat.eqb_neq in E0. apply Z.eqb_neq. lia.
-      + f_equal. f_equal. apply Nat.eqb_eq_iff_helper; lia.
+      + replace (cnt_unsched d' mm) with (cnt_unsched d mm) by lia. reflexivity.
     - intros Et. rewrite Hm, Et. cbn [when]. apply (Hrm Et).
   Qed.
+
+  Theorem completed_mach_after rs s0 i :
+    placed s0 i (fresh_comp I m) ->
+    let w := after_run I fs s0 rs in
+    t_mach m = true -> forall mm, (mm < num_machines I)%nat ->
+      existsb (on_machine I mm) (all_keys I) = true ->
+        cell (fo_mach (feat w i)) mm = Some (sp_allsched_mach I (rows w) mm).
+  Proof.
+    intros Hp.
+    destruct (inv_run I fs Hv cmach_inv (fun d o H => ltac:(rewrite (cm_kind d o H); discriminate))
+                      cmach_inv_step rs s0 i _ Hp cmach_inv_init) as [Hi [K Hm Hr]].
+    cbv zeta. unfold rows. set (d := core (after_run I fs s0 rs)) in *.
+    intros Ht mm Hmm Hex. rewrite Hm, Ht. cbn [when]. unfold flagm_cf. rewrite cell_map_seq by exact Hmm.
+    f_equal. unfold sp_allsched_mach.
+    assert (Hpos : (0 < cnt_all mm)%nat).
+    { unfold cnt_all. apply existsb_exists in Hex. destruct Hex as (k & Hk & Hon).
+      assert (Hin : In k (filter (onm I mm) (all_keys I))) by (apply filter_In; split; assumption).
+      destruct (filter (onm I mm) (all_keys I)); [contradiction|simpl; lia]. }
+    replace (0 <? cnt_all mm)%nat with true by (symmetry; apply Nat.ltb_lt; exact Hpos). cbn [andb].
+    unfold cnt_unsched, unsched_on. rewrite (count_zero_forallb (onm I mm) (is_sched d) (all_keys I)).
+    unfold b2z, zb.
+    rewrite (forallb_ext_in_local (fun k => implb (onm I mm k) (is_sched d k))
+               (fun k => implb (on_machine I mm k) (sp_scheduled (sched d) k)) (all_keys I)); [reflexivity|].
+    intros k _. rewrite (sp_scheduled_eq I d Hi). reflexivity.
+  Qed.
 End CompletedMach.
+
+Theorem completed_partial_after (I : instance) (fs : list fname) :
+  valid I -> forall m rs s0 i,
+    placed s0 i (fresh_comp I m) ->
+    let w := after_run I fs s0 rs in
+    (t_jobs m = true -> forall j, (j < num_jobs I)%nat -> get_job I j <> [] ->
+        cell (fo_jobs (feat w i)) j = Some (sp_allsched_job I (rows w) j)) /\
+    (t_mach m = true -> forall mm, (mm < num_machines I)%nat -> existsb (on_machine I mm) (all_keys I) = true ->
+        cell (fo_mach (feat w i)) mm = Some (sp_allsched_mach I (rows w) mm)).
+Proof.
+  intros Hv m rs s0 i Hp. split.
+  - exact (completed_jobs_after I fs Hv m rs s0 i Hp).
+  - exact (completed_mach_after I fs Hv m rs s0 i Hp).
+Qed.
